@@ -266,7 +266,7 @@ def rule_dispatch_pairing(ctx):
                         continue
                     n += 1
                     by_const.setdefault(k_, []).append((system, 'src/%s:%s %s' % (cfile, line_of(e), fname), callee_name(e)))
-    anchor(len(by_const) >= 4 and n >= 12, 'transformation calls selected by a coordinate-system constant')
+    anchor(len(by_const) >= 4 and n >= 6, 'transformation calls selected by a coordinate-system constant')
     for k_, uses in sorted(by_const.items()):
         systems = {}
         for sysname, where, callee in uses:
@@ -280,7 +280,7 @@ def rule_dispatch_pairing(ctx):
                     ctx.report('R12.6', '%s:%s' % (where.split(' ')[-1], k_), where,
                                'under %s this site calls %s (system "%s"), while %d other sites use the "%s" maps under the same constant: the forward map and this inverse do not belong together'
                                % (k_, callee, sysname, len(systems[major]), major))
-    ctx.covered('R12.6', 'transformation calls under coordinate-system constants: one system per constant at every site', n, floor=12,
+    ctx.covered('R12.6', 'transformation calls under coordinate-system constants: one system per constant at every site', n, floor=6,
                 samples=['%s -> %s (%d sites)' % (k_, sorted({u[0] for u in v}), len(v)) for k_, v in sorted(by_const.items())])
 
 
